@@ -245,10 +245,10 @@ pub fn shape_tag(s: &Shape, batch_size: usize) -> String {
         t.push("bitmap-shorter-than-stream-offset");
     }
     if s.int_min_is_i64_min_and_max_is_zero {
-        t.push("min=i64::MIN,max=0");
+        t.push("min-is-i64-MIN-and-max-is-0");
     }
     if s.increasing_step_overflows {
-        t.push("increasing-step>i64::MAX");
+        t.push("increasing-step-exceeds-i64-MAX");
     }
     if s.null_after_mixed {
         t.push("null-after-mixed");
